@@ -21,3 +21,5 @@ git -C /repo checkout -- .
 if [ -n "$first" ]; then
   echo "--- replay (pristine tree)"; ./check c20 --replay "$first" | tail -2
 fi
+# leave no simulator binary behind that was built from the patched tree (the replay above rebuilds one profile only)
+( cd /verif && ./setup.sh > /dev/null 2>&1 )
